@@ -339,10 +339,10 @@ fn eval_long(data: &[u8], st: &mut Stats, rng: &mut Rng, sample: bool) {
 }
 
 pub fn run(cfg: &Cfg) -> Stats {
-    let (lc, lb, nlong, maxlen, maxex) = match cfg.tier {
-        Tier::Tiny => (2u32, 2u32, 10u64, 200usize, 6usize),
-        Tier::Quick => (3, 3, 5_000, 2048, 10),
-        Tier::Thorough => (4, 5, 300_000, 8192, 12),
+    let (lc, lb, nlong, maxlen, maxex, long_thr) = match cfg.tier {
+        Tier::Tiny => (2u32, 2u32, 10u64, 200usize, 6usize, 256usize),
+        Tier::Quick => (3, 3, 5_000, 2048, 10, 8192),
+        Tier::Thorough => (4, 5, 300_000, 8192, 12, 65536),
     };
     let mut st = par(cfg, |shard, n| {
         let mut st = Stats::new();
@@ -359,9 +359,13 @@ pub fn run(cfg: &Cfg) -> Stats {
         let mut i = shard;
         while i < nlong {
             let mut r = Rng::new(cfg.seed, 0xC03_4000_0000 + i);
-            let s = match i % 3 {
-                0 => gen::gen_stream(&mut r, maxlen, true),
-                1 => gen::gen_stream(&mut r, maxlen, false),
+            let s = match i % 10 {
+                9 => {
+                    st.count("long_threshold_streams");
+                    gen::gen_long_stream(&mut r, long_thr, i % 20 == 9)
+                }
+                0 | 3 | 6 => gen::gen_stream(&mut r, maxlen, true),
+                1 | 4 | 7 => gen::gen_stream(&mut r, maxlen, false),
                 _ => gen::gen_sgr_text(&mut r, gen::SgrOpts::default(), 40, &[]),
             };
             eval_long(&s, &mut st, &mut r, i < 3);
